@@ -713,6 +713,8 @@ where
     rt::RAWSKIP.store(case.rawskip, std::sync::atomic::Ordering::Relaxed);
     rt::CLONEFROM.store(case.clonefrom, std::sync::atomic::Ordering::Relaxed);
     rt::RELOCATED.store(false, std::sync::atomic::Ordering::Relaxed);
+    rt::DROPWAIT_VAL.store(case.dropwait.map_or(u64::MAX, |d| d.0), std::sync::atomic::Ordering::Relaxed);
+    rt::DROPWAIT_TID.store(case.dropwait.map_or(usize::MAX, |d| d.1), std::sync::atomic::Ordering::Relaxed);
     let reloc_at = if nt == 1 { case.relocate } else { None };
     rt::begin_case(nt, iter_kind, case.clonepanic, case.droppanic, src_len);
 
@@ -736,6 +738,11 @@ where
     }
 
     rt::REENTER_SKIP.store(case.reenter_skip, std::sync::atomic::Ordering::Relaxed);
+    for (t, ops) in case.threads.iter().enumerate() {
+        if ops.is_empty() {
+            rt::mark_finished(t);
+        }
+    }
     rt::set_reenter(case.reenter, &slots as *const Vec<OnceLock<I>> as usize, reenter_tramp::<I>);
     let (bufs, outcome) = {
         let slots = &slots;
